@@ -139,7 +139,7 @@ struct FailRec { std::string loc; std::string test; std::string kind;
     bool operator==(const FailRec& o) const { return loc == o.loc && test == o.test && kind == o.kind; } };
 struct RepModel { size_t tests = 0, ran = 0, checks = 0, ignored = 0, filtered = 0, failures = 0; std::vector<TraceEv> trace; std::multiset<FailRec> fails; };
 
-RepModel model_repetition(bool group_filter, int filter_group, bool run_ignored, int rep) {
+RepModel model_repetition(bool group_filter, int filter_group, bool run_ignored, int rep, bool sepproc = false) {
     RepModel m;
     for (size_t t = 0; t < g_prog.size(); t++) {
         const TestSpec& s = g_prog[t];
@@ -165,6 +165,14 @@ RepModel model_repetition(bool group_filter, int filter_group, bool run_ignored,
             }
         }
         for (int i = 0; i < s.plugin_post; i++) m.fails.insert(FailRec{sfmt("plugin.cpp:%d", s.line + 5 + i), tname, "plugin post error"});
+    }
+    if (sepproc) {
+        // every test ran in a forked child: the parent sees neither the child's checks nor its individual failures, only
+        // "this test failed" - exactly one record per test whose child recorded at least one failure (by any route)
+        std::map<std::string, int> failed; for (auto& f : m.fails) failed[f.test]++;
+        m.fails.clear(); m.checks = 0; m.trace.clear();
+        for (size_t t = 0; t < g_prog.size(); t++) { const TestSpec& s = g_prog[t]; std::string tname = sfmt("TEST(%s, %s)", GROUPS[s.group], s.name.c_str());
+            if (failed.count(tname)) m.fails.insert(FailRec{sfmt("%s:%d", TESTFILE, s.line), tname, "sepproc"}); }
     }
     m.failures = m.fails.size();
     return m;
@@ -192,6 +200,7 @@ std::vector<FailRec> parse_failures(const std::string& out) {
         else if (msg.find("std::runtime_error") != std::string::npos && msg.find("boom") != std::string::npos) kind = "throw-std";
         else if (msg.find("Unexpected exception of unknown type") != std::string::npos) kind = "throw-int";
         else if (msg == "plugin pre error" || msg == "plugin post error") kind = msg;
+        else if (msg.find("Failed in separate process") == 0 && msg.find("killed") == std::string::npos) kind = "sepproc";
         v.push_back(FailRec{loc, test, kind});
         pos = ne;
     }
@@ -234,6 +243,8 @@ int run_case(Reader& r, bool& nontrivial, std::string& desc) {
     bool extra_e = r.flag();
     int verbosity = r.below(6) == 1 ? 1 + (int)r.below(2) : 0;     // -v / -vv (runner only)
     bool colour = r.below(6) == 1;                                  // -c (runner only)
+    bool sepproc = use_runner && r.below(64) == 1;                  // -p: every test in its own forked child (small programs only)
+    if (sepproc && repeat > 2) repeat = 2;
     int n = 1 + (int)r.below(24);
     int mode = (int)r.below(6);          // 0..3 free scripts, 4/5 uniform program: every test carries the same script (long runs of one failing kind)
     bool uniform = mode >= 4; TestSpec proto;
@@ -253,6 +264,7 @@ int run_case(Reader& r, bool& nontrivial, std::string& desc) {
         s.plugin_pre = r.below(8) == 1 ? 1 + (int)r.below(2) : 0; s.plugin_post = r.below(8) == 1 ? 1 : 0;
     };
     if (uniform) { gen_script(proto); if (mode == 5) n = 11 + (int)r.below(14); }
+    if (sepproc && n > 4) n = 4;
     for (int t = 0; t < n && (t == 0 || uniform || !r.empty()); t++) {
         TestSpec s = uniform ? proto : TestSpec();
         s.ignored = r.below(8) == 1; s.group = (int)r.below(3); s.name = sfmt("t%d", t); s.line = 100 * (t + 1);
@@ -262,7 +274,7 @@ int run_case(Reader& r, bool& nontrivial, std::string& desc) {
         g_prog.push_back(s);
     }
     n = (int)g_prog.size();
-    desc = sfmt("%s%s%s r%d%s%s: ", use_runner ? "runner" : "registry", use_runner && verbosity ? (verbosity == 1 ? " -v" : " -vv") : "", use_runner && colour ? " -c" : "", repeat, group_filter ? sfmt(" -sg %s", GROUPS[filter_group]).c_str() : "", run_ignored ? " -ri" : "") + render();
+    desc = sfmt("%s%s%s%s r%d%s%s: ", use_runner ? "runner" : "registry", use_runner && verbosity ? (verbosity == 1 ? " -v" : " -vv") : "", use_runner && colour ? " -c" : "", sepproc ? " -p" : "", repeat, group_filter ? sfmt(" -sg %s", GROUPS[filter_group]).c_str() : "", run_ignored ? " -ri" : "") + render();
     if (verif::g_explain) fprintf(stderr, "%s\n", desc.c_str());
 
     // ---- build registry
@@ -289,6 +301,7 @@ int run_case(Reader& r, bool& nontrivial, std::string& desc) {
         if (run_ignored) args.push_back("-ri");
         if (verbosity == 1) args.push_back("-v"); else if (verbosity == 2) args.push_back("-vv");
         if (colour) args.push_back("-c");
+        if (sepproc) args.push_back("-p");
         std::vector<const char*> av; for (auto& a : args) av.push_back(a.c_str());
         Runner runner((int)av.size(), av.data(), &reg, &out);
         rv = runner.runAllTestsMain(); rv_valid = true;
@@ -310,10 +323,11 @@ int run_case(Reader& r, bool& nontrivial, std::string& desc) {
     }
 
     // ---- oracle
+    if (sepproc) g_trace.clear();   // the children's statements are not visible to the parent
     V_CHECK(!g_probe.bad, "C01:history-invariant", "%s [%s]", g_probe.msg.c_str(), desc.c_str());
     V_CHECK(CppUTestVerif_JumpBufferDepth() == depth_before, "C01:jump-depth", "jump-buffer depth %d after the run, %d before [%s]", CppUTestVerif_JumpBufferDepth(), depth_before, desc.c_str());
     V_CHECK(UtestShell::getCurrent() == cur_before && current_result() == res_before, "C01:current-restored", "current test / result not restored after the run [%s]", desc.c_str());
-    std::vector<RepModel> ms; for (int k = 0; k < repeat; k++) ms.push_back(model_repetition(group_filter, filter_group, run_ignored, k));
+    std::vector<RepModel> ms; for (int k = 0; k < repeat; k++) ms.push_back(model_repetition(group_filter, filter_group, run_ignored, k, sepproc));
     const RepModel& m = ms[0];
     // trace: the events of every repetition, in order
     std::vector<TraceEv> want; for (int k = 0; k < repeat; k++) want.insert(want.end(), ms[k].trace.begin(), ms[k].trace.end());
@@ -322,7 +336,7 @@ int run_case(Reader& r, bool& nontrivial, std::string& desc) {
         std::string w = i < want.size() ? sfmt("test %d phase %d action %d", want[i].test, want[i].phase, want[i].idx) : "end", g = i < g_trace.size() ? sfmt("test %d phase %d action %d", g_trace[i].test, g_trace[i].phase, g_trace[i].idx) : "end";
         return verif::fail("C01:trace", "executed statements differ from the lifecycle model at event %zu: expected %s, got %s [%s]", i, w.c_str(), g.c_str(), desc.c_str());
     }
-    V_CHECK(g_probe.pre_seen == (int)(m.ran * repeat) && g_probe.post_seen == g_probe.pre_seen, "C01:plugin-actions", "plugin saw %d pre / %d post actions, expected %zu", g_probe.pre_seen, g_probe.post_seen, m.ran * repeat);
+    if (!sepproc) V_CHECK(g_probe.pre_seen == (int)(m.ran * repeat) && g_probe.post_seen == g_probe.pre_seen, "C01:plugin-actions", "plugin saw %d pre / %d post actions, expected %zu", g_probe.pre_seen, g_probe.post_seen, m.ran * repeat);
     // failures printed exactly once each
     std::vector<FailRec> got = parse_failures(out); std::multiset<FailRec> gs(got.begin(), got.end()), ws;
     for (int k = 0; k < repeat; k++) ws.insert(ms[k].fails.begin(), ms[k].fails.end());
@@ -358,6 +372,7 @@ int run_case(Reader& r, bool& nontrivial, std::string& desc) {
     }
     nontrivial = (n >= 2 && outside_body) || best >= 11 || fail_then_pass;
     if (best >= 11) verif::cls("run-of-11+-failing"); if (use_runner) verif::cls("via-runner"); else verif::cls("via-registry");
+    if (sepproc) verif::cls("-p (separate process)");
     if (use_runner && verbosity) verif::cls(verbosity == 1 ? "-v" : "-vv"); if (use_runner && colour) verif::cls("-c");
     if (repeat > 1) verif::cls("repeat>1"); if (any_throw) verif::cls("throws"); if (group_filter) verif::cls("group-filter"); if (run_ignored) verif::cls("run-ignored");
     return 0;
